@@ -117,8 +117,10 @@ def render(pt, state):
     files["rootpk/__init__.py"] = ""
     files["rootpk/main.py"] = (
         f"import dds\nimport vlog\n{imp}\nfrom other import sib\nimport {'.'.join(nb)} as nbm\nimport {'.'.join(parts[:-1] + ['pkgsib'])} as psm\n\n\n"
+        # (a function of this module carries the name that the leaf module uses for its tracked variable)
+        "def LV():\n    return 'main.LV'\n\n\n"
         "@dds.data_function('/out')\ndef out():\n    vlog.rec('out')\n"
-        f"    return ('out', {call}, sib.sf(), nbm.nf(), psm.psf())\n\n\n"
+        f"    return ('out', {call}, sib.sf(), nbm.nf(), psm.psf(), LV())[:5]\n\n\n"
         "@dds.data_function('/out2')\ndef out2():\n    vlog.rec('out2')\n    return ('out2', sib.sdata())\n"
     )
     return files
